@@ -47,6 +47,11 @@ func c02Arg(name string) (any, bool) {
 	bs := []byte("xy")
 	ss := []string{"foo", "", "bar"}
 	bb := [][]byte{[]byte("foo"), nil, {}}
+	// spare capacity: items between length and capacity exist in the storage but are no elements
+	sscap := append(make([]string, 0, 5), "foo", "bar", "beyond", "the", "end")[:2]
+	bbcap := append(make([][]byte, 0, 5), []byte("foo"), []byte("bar"), []byte("beyond"), nil, []byte("end"))[:2]
+	ssemp := append(make([]string, 0, 3), "gone", "too")[:0]
+	bbemp := append(make([][]byte, 0, 3), []byte("gone"), []byte("too"))[:0]
 	var ssnil []string
 	var bbnil [][]byte
 	pi := &i
@@ -118,6 +123,18 @@ func c02Arg(name string) (any, bool) {
 		return ssnil, true
 	case "p:ssnil":
 		return &ssnil, true
+	case "v:sscap":
+		return sscap, true
+	case "p:sscap":
+		return &sscap, true
+	case "v:bbcap":
+		return bbcap, true
+	case "p:bbcap":
+		return &bbcap, true
+	case "p:ssemp":
+		return &ssemp, true
+	case "v:bbemp":
+		return bbemp, true
 	case "v:bb":
 		return bb, true
 	case "p:bb":
